@@ -7,13 +7,15 @@ namespace TsVerif.C03
 /-- the top operator of `e` (if it is a binary node) was allowed to continue under `ctx` -/
 def topOK (t : OpTable) (ctx : PCtx) : ETree → Bool
   | .bin k _ _ => shouldShift ctx (t.binLevel k)
+  | .post k _ => shouldShift ctx (t.postLevel k)
   | _ => true
 
-/-- `l` may be the left operand of binary operator `k`: whatever operator is at the top of `l`
-was completed (reduced) when `k` arrived, i.e. `k` was not allowed to continue under it -/
-def leftOK (t : OpTable) (k : Nat) : ETree → Bool
-  | .bin k1 _ _ => !shouldShift (some (t.binLevel k1, t.binRight k1)) (t.binLevel k)
-  | .un u _ => !shouldShift (some (t.unLevel u, false)) (t.binLevel k)
+/-- `l` may be the left operand of an operator of level `p`: whatever operator is at the top of `l`
+was completed (reduced) when that operator arrived, i.e. it was not allowed to continue under it
+(a postfix operator at the top of `l` is complete by itself) -/
+def leftOK (t : OpTable) (p : Int) : ETree → Bool
+  | .bin k1 _ _ => !shouldShift (some (t.binLevel k1, t.binRight k1)) p
+  | .un u _ => !shouldShift (some (t.unLevel u, false)) p
   | _ => true
 
 /-- The declared precedence and associativity hold at every node of the tree. -/
@@ -21,14 +23,24 @@ def Respects (t : OpTable) : ETree → Bool
   | .atom => true
   | .paren e => Respects t e
   | .un u e => Respects t e && topOK t (some (t.unLevel u, false)) e
-  | .bin k l r => Respects t l && Respects t r && topOK t (some (t.binLevel k, t.binRight k)) r && leftOK t k l
+  | .bin k l r => Respects t l && Respects t r && topOK t (some (t.binLevel k, t.binRight k)) r &&
+      leftOK t (t.binLevel k) l
+  | .post k e => Respects t e && leftOK t (t.postLevel k) e
 
+/-- produced by the operator loop (a binary or postfix node) rather than by the prefix parser -/
 def isBin : ETree → Bool
   | .bin _ _ _ => true
+  | .post _ _ => true
   | _ => false
 
 def Declined (t : OpTable) (ctx : PCtx) (rest : List OpTok) : Prop :=
-  ∀ k r, rest = .bin k :: r → shouldShift ctx (t.binLevel k) = false
+  (∀ k r, rest = .bin k :: r → shouldShift ctx (t.binLevel k) = false) ∧
+  (∀ k r, rest = .post k :: r → shouldShift ctx (t.postLevel k) = false)
+
+/-- the operand to the left of whatever operator comes next is complete -/
+def LeftReady (t : OpTable) (e : ETree) (rest : List OpTok) : Prop :=
+  (∀ k r, rest = .bin k :: r → leftOK t (t.binLevel k) e = true) ∧
+  (∀ k r, rest = .post k :: r → leftOK t (t.postLevel k) e = true)
 
 structure ExprPost (t : OpTable) (ctx : PCtx) (toks : List OpTok) (e : ETree) (rest : List OpTok) : Prop where
   yield : toks = e.yield ++ rest
@@ -40,13 +52,13 @@ structure PrefixPost (t : OpTable) (toks : List OpTok) (e : ETree) (rest : List 
   yield : toks = e.yield ++ rest
   resp : Respects t e = true
   notBin : isBin e = false
-  left : ∀ k r, rest = .bin k :: r → leftOK t k e = true
+  left : LeftReady t e rest
 
 def PAt (t : OpTable) (f : Nat) : Prop :=
   (∀ ctx toks e rest, parseExpr t f ctx toks = some (e, rest) → ExprPost t ctx toks e rest) ∧
   (∀ toks e rest, parsePrefix t f toks = some (e, rest) → PrefixPost t toks e rest) ∧
   (∀ ctx lhs toks e rest, parseLoop t f ctx lhs toks = some (e, rest) →
-      Respects t lhs = true → topOK t ctx lhs = true → (∀ k r, toks = .bin k :: r → leftOK t k lhs = true) →
+      Respects t lhs = true → topOK t ctx lhs = true → LeftReady t lhs toks →
       (e.yield ++ rest = lhs.yield ++ toks ∧ Respects t e = true ∧ topOK t ctx e = true ∧ Declined t ctx rest))
 
 theorem topOK_of_notBin (t : OpTable) (ctx : PCtx) (e : ETree) (h : isBin e = false) : topOK t ctx e = true := by
@@ -66,13 +78,14 @@ theorem pratt_step (t : OpTable) (f : Nat) (ih : PAt t f) : PAt t (f + 1) := by
   · intro toks e rest h
     simp only [parsePrefix] at h
     split at h
-    · next r => cases h; exact ⟨by simp [ETree.yield], rfl, rfl, by intro k r' _; rfl⟩
+    · next r => cases h; exact ⟨by simp [ETree.yield], rfl, rfl, ⟨by intro k r' _; rfl, by intro k r' _; rfl⟩⟩
     · next r =>
       split at h
       · next e' r' he =>
         cases h
         have ep := ihE none r e' _ he
-        exact ⟨by rw [ep.yield]; simp [ETree.yield], by simpa [Respects] using ep.resp, rfl, by intro k r'' _; rfl⟩
+        exact ⟨by rw [ep.yield]; simp [ETree.yield], by simpa [Respects] using ep.resp, rfl,
+          ⟨by intro k r'' _; rfl, by intro k r'' _; rfl⟩⟩
       · cases h
     · next u r =>
       split at h
@@ -81,9 +94,13 @@ theorem pratt_step (t : OpTable) (f : Nat) (ih : PAt t f) : PAt t (f + 1) := by
         have ep := ihE _ r e' _ he
         refine ⟨by rw [ep.yield]; simp [ETree.yield], ?_, rfl, ?_⟩
         · simp only [Respects, Bool.and_eq_true]; exact ⟨ep.resp, ep.top⟩
-        · intro k r'' hr
-          simp only [leftOK, Bool.not_eq_true']
-          exact ep.decl k r'' hr
+        · refine ⟨?_, ?_⟩
+          · intro k r'' hr
+            simp only [leftOK, Bool.not_eq_true']
+            exact ep.decl.1 k r'' hr
+          · intro k r'' hr
+            simp only [leftOK, Bool.not_eq_true']
+            exact ep.decl.2 k r'' hr
       · cases h
     · cases h
   · intro ctx lhs toks e rest h hresp htop hleft
@@ -97,11 +114,15 @@ theorem pratt_step (t : OpTable) (f : Nat) (ih : PAt t f) : PAt t (f + 1) := by
           have ep := ihE _ r rhs r' he
           have hresp' : Respects t (.bin k lhs rhs) = true := by
             simp only [Respects, Bool.and_eq_true]
-            exact ⟨⟨⟨hresp, ep.resp⟩, ep.top⟩, hleft k r rfl⟩
-          have hleft' : ∀ k' r'', r' = .bin k' :: r'' → leftOK t k' (.bin k lhs rhs) = true := by
-            intro k' r'' hr
-            simp only [leftOK, Bool.not_eq_true']
-            exact ep.decl k' r'' hr
+            exact ⟨⟨⟨hresp, ep.resp⟩, ep.top⟩, hleft.1 k r rfl⟩
+          have hleft' : LeftReady t (.bin k lhs rhs) r' := by
+            refine ⟨?_, ?_⟩
+            · intro k' r'' hr
+              simp only [leftOK, Bool.not_eq_true']
+              exact ep.decl.1 k' r'' hr
+            · intro k' r'' hr
+              simp only [leftOK, Bool.not_eq_true']
+              exact ep.decl.2 k' r'' hr
           have := ihL ctx (.bin k lhs rhs) r' e rest h hresp' (by simpa [topOK] using hshift) hleft'
           refine ⟨?_, this.2.1, this.2.2.1, this.2.2.2⟩
           rw [this.1, ep.yield]
@@ -109,15 +130,38 @@ theorem pratt_step (t : OpTable) (f : Nat) (ih : PAt t f) : PAt t (f + 1) := by
         · cases h
       · next hshift =>
         cases h
-        refine ⟨rfl, hresp, htop, ?_⟩
-        intro k' r' hr
-        cases hr
-        simpa using hshift
-    · next hnb =>
+        refine ⟨rfl, hresp, htop, ?_, ?_⟩
+        · intro k' r' hr
+          cases hr
+          simpa using hshift
+        · intro k' r' hr
+          cases hr
+    · next k r =>
+      split at h
+      · next hshift =>
+        have hresp' : Respects t (.post k lhs) = true := by
+          simp only [Respects, Bool.and_eq_true]
+          exact ⟨hresp, hleft.2 k r rfl⟩
+        have hleft' : LeftReady t (.post k lhs) r := ⟨by intro k' r'' _; rfl, by intro k' r'' _; rfl⟩
+        have := ihL ctx (.post k lhs) r e rest h hresp' (by simpa [topOK] using hshift) hleft'
+        refine ⟨?_, this.2.1, this.2.2.1, this.2.2.2⟩
+        rw [this.1]
+        simp [ETree.yield, List.append_assoc]
+      · next hshift =>
+        cases h
+        refine ⟨rfl, hresp, htop, ?_, ?_⟩
+        · intro k' r' hr
+          cases hr
+        · intro k' r' hr
+          cases hr
+          simpa using hshift
+    · next hnb hnp =>
       cases h
-      refine ⟨rfl, hresp, htop, ?_⟩
-      intro k r hr
-      exact absurd hr (by intro h'; exact hnb k r h')
+      refine ⟨rfl, hresp, htop, ?_, ?_⟩
+      · intro k r hr
+        exact absurd hr (by intro h'; exact hnb k r h')
+      · intro k r hr
+        exact absurd hr (by intro h'; exact hnp k r h')
 
 theorem pratt_all (t : OpTable) : ∀ f, PAt t f := by
   intro f
